@@ -15,11 +15,12 @@ EXTENDS Stream, StreamUniverse, FiniteSets
 
 CONSTANTS MaxItems, UniverseName
 
-U == IF UniverseName = "core" THEN Core ELSE IF UniverseName = "corewrap" THEN Core \o Wrappers ELSE Full
+U == IF UniverseName = "core" THEN Core ELSE IF UniverseName = "corewrap" THEN Core \o Wrappers
+     ELSE IF UniverseName = "nul" THEN Nul ELSE Full
 Items == {U[i] : i \in DOMAIN U}
 
 Next ==
-  \/ \E it \in Items : Len(s.items) < MaxItems /\ Write(it)
+  \/ \E it \in Items : Len(s.items) < MaxItems /\ Write(it, EncLen(it))
   \/ \E k \in 0..s.bytes : s.phase \in {"writing", "broken"} /\ Open(k)   \* (re-opening from every reader state only repeats behaviours)
   \/ \E via \in {"typed", "vec", "view", "read"}, dst \in {"fresh", "reused", "prepop"} :
         s.phase = "reading" /\ s.idx < Len(s.items) /\
@@ -39,11 +40,22 @@ Sum(q) == IF q = <<>> THEN 0 ELSE Head(q) + Sum(Tail(q))
 SomePartPast(parts, rem) == \E j \in 1..Len(parts) : Sum(SubSeq(parts, 1, j)) > rem
 
 RawPartsLaw ==
-  \A it \in {Full[i] : i \in DOMAIN Full} : \A via \in Vias(it) :
+  \A it \in {Full[i] : i \in DOMAIN Full} \cup {Nul[i] : i \in DOMAIN Nul} : \A via \in Vias(it) :
      /\ Sum(RawParts(it, via)) = EncLen(it)
      /\ \A j \in 1..Len(RawParts(it, via)) : RawParts(it, via)[j] >= 0
      /\ \A rem \in 0..(EncLen(it) + 1) : SomePartPast(RawParts(it, via), rem) <=> (EncLen(it) > rem)
 ASSUME RawPartsLaw
+
+\* the two string contracts: a std::string is carried whole (NUL bytes included, 8 + size() bytes);
+\* a const char* is carried up to its first NUL (8 + strlen() bytes)
+StringContracts ==
+  \A it \in {Nul[i] : i \in DOMAIN Nul} :
+     /\ it.t = "bstr" => Val(it) = it.v /\ EncLen(it) = 8 + Len(it.v)
+     /\ it.t = "cstrb" => LET p == Val(it) IN
+           /\ ~NulIn(p) /\ Len(p) <= Len(it.v) /\ p = SubSeq(it.v, 1, Len(p))
+           /\ (Len(p) < Len(it.v) => it.v[Len(p) + 1] = 0)
+           /\ EncLen(it) = 8 + Len(p)
+ASSUME StringContracts
 
 \* explicit stream of byte labels <<item index, byte number>>
 RECURSIVE Labels(_, _)
